@@ -37,7 +37,7 @@ def cases(tier, seed):
                                         hprog=15, hcb=12, p_cb=10, p_bcast=8, sizes=(0, 8, 100, 600), other=rng.choice([0, 0, 60]), p_stats=rng.choice([0, 0, 15]))
                     out.append((sc, T.Config(N, P, routing, kb, irecvs=rng.choice([1, 8]), isends_wait=rng.choice([0, 4]), issend=rng.choice([0, 8]),
                                              policy=rng.choice(["racer", "racer", "late", "uniform", "burst", "starve"]), eager=rng.choice([0, 50, 100]),
-                                             sim_seed=rng.below(1 << 30))))
+                                             sim_seed=rng.below(1 << 30), placement=("cyclic" if N > 1 and rng.below(4) == 0 else None))))
     return out
 
 
